@@ -40,11 +40,3 @@ def extract(repo):
             ("default_address_byte", "N", z.group(1)),
             ("default_address_is_random", "bool", _bool(d.group(1)))]
 
-
-def lints(repo):
-    s = strip_comments(read(repo, HPP))
-    bad = []
-    # modelling assumption: the software list is selected exactly when Size exceeds the radio's entries
-    if not re.search(r"white_list_implementation<\s*Size\s*,\s*\(\s*Size\s*>\s*Radio::radio_maximum_white_list_entries\s*\)\s*,\s*Radio\s*,\s*LinkLayer\s*>", s):
-        bad.append("white_list impl selection is no longer Size > Radio radio_maximum_white_list_entries")
-    return bad
